@@ -325,6 +325,13 @@ func c03Progs() map[string]*Prog {
 		{Name: "root", Deps: []Ref{D("sib")}, Cmds: []C{{For: &vlab.For{List: []string{"a", "b"}}, Exit: 3}, P()}},
 		sib,
 	}}
+	// the failing command sits in a dependency of a task that is reached through a task call
+	m["fail-in-dep-of-called-task"] = &Prog{Tasks: []*T{
+		{Name: "root", Deps: []Ref{D("sib")}, Cmds: []C{P(), Call("mid"), P()}},
+		{Name: "mid", Deps: []Ref{D("leaf")}, Cmds: []C{P()}},
+		{Name: "leaf", Cmds: []C{P(), Fx(5), P()}},
+		sib,
+	}}
 	m["fail-in-dep-of-ignoring-task"] = &Prog{Tasks: []*T{
 		{Name: "root", Deps: []Ref{D("sib")}, Cmds: []C{P(), Call("a"), P()}},
 		{Name: "a", IgnoreError: true, Deps: []Ref{D("b")}, Cmds: []C{P()}},
@@ -340,7 +347,7 @@ func c03Units(tier string) []*Unit {
 	for _, name := range sortedProgNames(progs) {
 		pg := progs[name]
 		for _, xflag := range []bool{false, true} {
-			if xflag && tier != "thorough" && name != "fail-direct" && name != "fail-in-dep" && name != "fail-in-nested-call" {
+			if xflag && tier != "thorough" && name != "fail-direct" && name != "fail-in-dep" && name != "fail-in-nested-call" && name != "fail-in-dep-of-called-task" {
 				continue
 			}
 			concs := []int{0}
